@@ -28,6 +28,7 @@ SPEC = {
         "Sema.C13.C13_sync_agrees_with_request", "Sema.C13.C13_sync_cached_delim",
         "Sema.C13.C13_route_owner", "Sema.C13.C13_route_indep", "Sema.C13.C13_route_up", "Sema.C13.C13_route_down",
         "Sema.C13.C13_failover_one", "Sema.C13.C13_failover_depends",
+        "Sema.C13.C13_sync_dest_set", "Sema.C13.C13_shard_dest_set", "Sema.C13.C13_route_set",
         # tie theorems (SemaModel/C13/Tie.lean): the model functions = the definition generated from cluster/hashing.go
         "Sema.C13.C13_tie_shape", "Sema.C13.C13_tie_spec", "Sema.C13.C13_tie", "Sema.C13.C13_tie_owner",
     ],
